@@ -44,18 +44,44 @@ func Assemble(src string, tag string) (out []byte, outcome string) {
 
 var LastParseError string
 
+// LastTree is the tree most recently assembled by AssembleT/AssembleTK.
+var LastTree any
+
+// ExecTree assembles an already parsed (and substituted) tree again.
+func ExecTree(tree any, tag string) (out []byte, outcome string) {
+	dst := vrt.TempFile(tag + ".out")
+	outcome = vrt.Try(func() {
+		frontend.Exec(tree, dst)
+	})
+	if outcome != "ok" {
+		return nil, outcome
+	}
+	b, err := os.ReadFile(dst)
+	if err != nil {
+		return nil, "no-output"
+	}
+	return b, "ok"
+}
+
 // AssembleT assembles a program given as template text plus substitutions:
 // the template (all literals concrete) is parsed by the real parser — once
 // per cell under the engine — and the placeholder NumberFactors of the tree
 // are then replaced by the (possibly symbolic) values.
 func AssembleT(tmpl string, sb []Sub, tag string) (out []byte, outcome string) {
+	return AssembleTK(tmpl, sb, tag, "")
+}
+
+// AssembleTK is AssembleT with an explicit parse key: calls with the same
+// (template, key) share one parsed tree (re-assembling the same tree), calls
+// with different keys parse afresh.
+func AssembleTK(tmpl string, sb []Sub, tag, key string) (out []byte, outcome string) {
 	dst := vrt.TempFile(tag + ".out")
 	type parsed struct {
 		tree any
 		err  error
 		oc   string
 	}
-	p := vrt.Once("parse:"+tmpl, func() any {
+	p := vrt.Once("parse:"+key+":"+tmpl, func() any {
 		var r parsed
 		r.oc = vrt.Try(func() {
 			r.tree, r.err = gen.Parse("", []byte(tmpl), gen.Entrypoint("Program"))
@@ -77,6 +103,7 @@ func AssembleT(tmpl string, sb []Sub, tag string) (out []byte, outcome string) {
 	if left != 0 {
 		return nil, "template-error"
 	}
+	LastTree = p.tree
 	outcome = vrt.Try(func() {
 		frontend.Exec(p.tree, dst)
 	})
